@@ -195,6 +195,7 @@ def gen_config(prop, sub, run_id, n, shape):
         "chaos_steps": rng.choice([steps_hint // 2, steps_hint, 2 * steps_hint, 5 * steps_hint, 20 * steps_hint]),
         "faults": [],
         "pickle_at_put": rng.random() < 0.2,
+        "stdout": rng.random() < 0.1,  # no -o: the GAF goes to standard output
     }
     cfg["max_steps"] = 150000 + 400 * n  # steps allowed after the chaos phase
     if prop == "C13":
@@ -579,6 +580,7 @@ def shrink(repo, viol, budget_s=90.0, log=None):
         ch |= try_cfg(lambda c: c["cfg"].__setitem__("cpu_count", 16))
         ch |= try_cfg(lambda c: c["cfg"].__setitem__("pipe", dict(REAL_PIPE)))
         ch |= try_cfg(lambda c: c["cfg"].__setitem__("pickle_at_put", False))
+        ch |= try_cfg(lambda c: c["cfg"].__setitem__("stdout", False))
         for nf in range(len(case["cfg"].get("faults", [])) - 1, -1, -1):
             ch |= try_cfg(lambda c, nf=nf: c["cfg"]["faults"].pop(nf) if len(c["cfg"]["faults"]) > nf else None)
         for f_i in range(len(case["cfg"].get("faults", []))):
